@@ -22,17 +22,17 @@ theorem decPrep_mid_done (st : DecState) (segs : List Seg) (store2 : List Byte) 
     | (simp only [Sum.inr.injEq, Prod.mk.injEq] at h; obtain ⟨_, rfl⟩ := h; first | omega | (simp only; omega) | rfl)
 
 /-- facts about the exit of a call for liveness -/
-structure LiveOut (v : Variant) (o : DecOut) (slack : Nat) (pre : List Byte) : Prop where
+structure LiveOut (v : Variant) (o : DecOut) (slack : Nat) (unread : List Byte) : Prop where
   ok : SlackOk v o.st
-  ret : o.ret = .val 1 ∨ o.ret = .err .MissingData ∨ o.ret = .err .MissingBuffer
-  enough : pre.length + 2 ≤ slack → o.ret ≠ .err .MissingBuffer
+  live : ∀ pre junk, unread = pre ++ 0 :: junk → (∀ x ∈ pre, x ≠ 0) →
+    (o.ret = .val 1 ∨ o.ret = .err .MissingData ∨ o.ret = .err .MissingBuffer) ∧
+    (pre.length + 2 ≤ slack → o.ret ≠ .err .MissingBuffer)
 
 /-- a call inside a frame whose delimiter has arrived -/
 theorem mid_live0 (v : Variant) (segs : List Seg) (st : DecState) (store : List Byte) (c p : Nat)
     (hflat : flat segs = store) (hb : Bnd store.length st) (hs : SlackOk v st)
-    (hmsg : st.msg = none) (hctx : st.ctx = p * 256 + c) (hc0 : 0 < c) (hc : c < 256) (hp : p < 256)
-    (pre junk : List Byte) (hun : store.drop st.curr = pre ++ 0 :: junk) (hnz : ∀ x ∈ pre, x ≠ 0) :
-    LiveOut v (decodeCobs v st segs false) (st.curr - (st.pos + st.len)) pre := by
+    (hmsg : st.msg = none) (hctx : st.ctx = p * 256 + c) (hc0 : 0 < c) (hc : c < 256) (hp : p < 256) :
+    LiveOut v (decodeCobs v st segs false) (st.curr - (st.pos + st.len)) (store.drop st.curr) := by
   obtain ⟨st', l, hprep⟩ := decPrep_noerr st segs store hb
   obtain ⟨h1, h2, h3, h4, h5, h6, h7, h8, h9, h10⟩ := decPrep_mid st _ _ st' l c p hmsg hctx hc0 hc hp hprep
   have hd := decPrep_mid_done st segs store st' l c p hmsg hctx hc0 hc hprep
@@ -51,15 +51,16 @@ theorem mid_live0 (v : Variant) (segs : List Seg) (st : DecState) (store : List 
     rw [if_neg (by omega)]
   have hl8 : l.r ≤ l.store.length := by rw [h1]; exact h8
   obtain ⟨a, b⟩ := decLoop_live v st' (l.store.length - l.r) l (by omega) hjl h6
-  obtain ⟨b1, b2⟩ := b pre junk (by rw [h1, h5]; exact hun) hnz
   rw [hout]
-  exact ⟨a, b1, by rw [← hproc]; exact b2⟩
+  refine ⟨a, fun pre junk hun hnz => ?_⟩
+  obtain ⟨b1, b2⟩ := b pre junk (by rw [h1, h5]; exact hun) hnz
+  exact ⟨b1, by rw [← hproc]; exact b2⟩
 
 /-- a call between two messages that finds a frame whose delimiter has arrived -/
 theorem fresh_live0 (v : Variant) (segs : List Seg) (st : DecState) (store : List Byte) (hflat : flat segs = store)
-    (hb : Bnd store.length st) (hf : Fresh st) (c0 : Byte) (pre junk : List Byte)
-    (hU : store.drop st.curr = c0 :: (pre ++ 0 :: junk)) (hc0 : c0 ≠ 0) (hnz : ∀ x ∈ pre, x ≠ 0) :
-    LiveOut v (decodeCobs v st segs false) 0 pre := by
+    (hb : Bnd store.length st) (hf : Fresh st) (c0 : Byte) (U : List Byte)
+    (hU : store.drop st.curr = c0 :: U) (hc0 : c0 ≠ 0) :
+    LiveOut v (decodeCobs v st segs false) 0 U := by
   obtain ⟨st', l, hprep⟩ := decPrep_noerr st segs store hb
   obtain ⟨h1, h2, h3, h4, h5, h6, h7⟩ := decPrep_fresh st _ store st' l hf hprep
   have hc : l.store[l.r]? = some c0 := by
@@ -70,7 +71,7 @@ theorem fresh_live0 (v : Variant) (segs : List Seg) (st : DecState) (store : Lis
     rcases Nat.lt_or_ge l.r l.store.length with h | h
     · exact h
     · simp [List.getElem?_eq_none h] at hc
-  have hdrop : l.store.drop (l.r + 1) = pre ++ 0 :: junk := by
+  have hdrop : l.store.drop (l.r + 1) = U := by
     rw [h1, h5]
     have := congrArg (List.drop 1) hU
     simpa [List.drop_drop, Nat.add_comm] using this
@@ -85,8 +86,56 @@ theorem fresh_live0 (v : Variant) (segs : List Seg) (st : DecState) (store : Lis
     simp only [hc0, if_false]
   obtain ⟨a, b⟩ := decLoop_live v st' (l.store.length - (l.r + 1)) { l with proc := l.proc + 1, code := c0.toNat, reads := [l.r] }
     (by rw [hr1]; simp only; omega) ⟨UInt8.toNat_lt c0, by simp only; omega, fun _ => by simp only; omega⟩ h6
-  obtain ⟨b1, _⟩ := b pre junk (by rw [hr1]; exact hdrop) hnz
   rw [hout]
-  exact ⟨a, b1, fun h => by omega⟩
+  refine ⟨a, fun pre junk hun hnz => ?_⟩
+  obtain ⟨b1, _⟩ := b pre junk (by rw [hr1, hdrop]; exact hun) hnz
+  exact ⟨b1, fun h => by omega⟩
+
+/-- the same for the decoder selected by the variant -/
+structure LiveOutV (v : Variant) (o : DecOut) (slack : Nat) (unread : List Byte) : Prop where
+  ok : SlackOk v o.st
+  live : ∀ pre junk, unread = pre ++ 0 :: junk → (∀ x ∈ pre, x ≠ 0) →
+    (o.ret = .val 1 ∨ o.ret = .err .MissingBuffer ∨ (o.ret = .err .MissingData ∧ (v.tail = false ∨ o.st.ctx = 0))) ∧
+    (pre.length + 2 ≤ slack → o.ret ≠ .err .MissingBuffer)
+
+theorem lift_live (v : Variant) (st : DecState) (segs : List Seg) (slack : Nat) (unread : List Byte)
+    (hwf : ∀ m, st.msg = some m → m = st.len)
+    (h : LiveOut v (decodeCobs v st segs false) slack unread) : LiveOutV v (decodeV v st segs false) slack unread := by
+  have hsafe := decodeCobs_safe v st segs false hwf
+  have hplain : decodeV v st segs false = decodeCobs v st segs false →
+      (decodeCobs v st segs false).ret = .err .MissingData → (v.tail = false ∨ (decodeCobs v st segs false).st.ctx = 0) →
+      LiveOutV v (decodeV v st segs false) slack unread := by
+    intro e hmd hor
+    rw [e]
+    refine ⟨h.ok, fun pre junk hu hnz => ?_⟩
+    obtain ⟨a, b⟩ := h.live pre junk hu hnz
+    exact ⟨Or.inr (Or.inr ⟨hmd, hor⟩), b⟩
+  by_cases hmd : (decodeCobs v st segs false).ret = .err .MissingData
+  · cases ht : v.tail
+    · exact hplain (by unfold decodeV; simp [ht]) hmd (Or.inl ht)
+    · by_cases hctx : (decodeCobs v st segs false).st.ctx ≠ 0
+      · have hmd' := hsafe.md hmd
+        have hlen := hsafe.len
+        simp only [Bool.false_eq_true, if_false] at hmd' hlen
+        unfold decodeV
+        simp only [ht, if_true]
+        unfold decodeCobsR
+        simp only [Bool.false_eq_true, false_or]
+        generalize decodeCobs v st segs false = o at hmd hctx hmd' hlen
+        rw [if_pos ⟨hmd, hctx⟩, if_neg (by omega), if_pos (by omega)]
+        exact ⟨slackOk_ctx0 v _ rfl, fun _ _ _ _ => ⟨Or.inl rfl, fun _ => by simp⟩⟩
+      · refine hplain ?_ hmd (Or.inr (by simpa using hctx))
+        unfold decodeV
+        simp only [ht, if_true]
+        unfold decodeCobsR
+        simp only
+        rw [if_neg (by intro hc; exact hctx hc.2)]
+  · rw [decodeV_eq_of_ret v st segs hmd]
+    refine ⟨h.ok, fun pre junk hu hnz => ?_⟩
+    obtain ⟨a, b⟩ := h.live pre junk hu hnz
+    rcases a with a | a | a
+    · exact ⟨Or.inl a, b⟩
+    · exact absurd a hmd
+    · exact ⟨Or.inr (Or.inl a), b⟩
 
 end Mpt.Codec
